@@ -7,6 +7,7 @@ sts_t g_sts;
 int g_thrown;
 int g_handler;
 int g_may_throw;
+struct vc_snap_t vc_snap;
 size_t gk;
 dig_t g_cy[VC_MAXN + 2];
 
